@@ -314,20 +314,32 @@ func (p *party) sendMessages() {
 	for {
 		select {
 		case <-p.closeChan:
-			return
-		case msg := <-p.out:
-			msgBytes, routing, err := msg.WireBytes()
-			if err != nil {
-				p.logger.Warnf("Failed marshaling message: %v", err)
-				continue
-			}
-			if routing.IsBroadcast {
-				p.sendMsg(msgBytes, routing.IsBroadcast, 0)
-			} else {
-				for _, to := range msg.GetTo() {
-					p.sendMsg(msgBytes, routing.IsBroadcast, uint16(big.NewInt(0).SetBytes(to.Key).Uint64()))
+			// The protocol has ended, but the messages it has already queued must still go out
+			for {
+				select {
+				case msg := <-p.out:
+					p.forward(msg)
+				default:
+					return
 				}
 			}
+		case msg := <-p.out:
+			p.forward(msg)
+		}
+	}
+}
+
+func (p *party) forward(msg tss.Message) {
+	msgBytes, routing, err := msg.WireBytes()
+	if err != nil {
+		p.logger.Warnf("Failed marshaling message: %v", err)
+		return
+	}
+	if routing.IsBroadcast {
+		p.sendMsg(msgBytes, routing.IsBroadcast, 0)
+	} else {
+		for _, to := range msg.GetTo() {
+			p.sendMsg(msgBytes, routing.IsBroadcast, uint16(big.NewInt(0).SetBytes(to.Key).Uint64()))
 		}
 	}
 }
